@@ -72,3 +72,25 @@ def valid_impl_type(schema, t, s) -> bool:
     if t == s:
         return True
     return isinstance(t, ObjectType) and isinstance(s, GraphQLAbstractType) and possible(schema, s, t)
+
+
+# ---- response shapes (C06 / C05 field merging: SameResponseShape, section 5.3.2) ---------------------------------
+
+from py_gql.schema.types import GraphQLLeafType   # noqa: E402
+
+
+def shape_conflict(a, b) -> bool:
+    """The two field types can never describe the same response shape at this level: exactly one of them is non-null, or exactly
+    one is a list, or (after unwrapping in lock-step) one of them is a scalar / enum and they are not the same type.  Two composite
+    types never conflict here: their sub-selections are compared recursively by the rule itself."""
+    if isinstance(a, NonNullType) or isinstance(b, NonNullType):
+        if not (isinstance(a, NonNullType) and isinstance(b, NonNullType)):
+            return True
+        return shape_conflict(a.type, b.type)
+    if isinstance(a, ListType) or isinstance(b, ListType):
+        if not (isinstance(a, ListType) and isinstance(b, ListType)):
+            return True
+        return shape_conflict(a.type, b.type)
+    if isinstance(a, GraphQLLeafType) or isinstance(b, GraphQLLeafType):
+        return not (a == b)
+    return False
